@@ -164,6 +164,11 @@ func (s *Shard) InsertPoints(points []models.Point) error {
 		// ---------------------------
 		// Kick off index dispatcher
 		ctx, cancel := context.WithCancel(context.Background())
+		// The pipeline stages below work on this transaction. If one of them
+		// fails the others must have stopped before the transaction is rolled
+		// back, so we cancel and then wait for all of them.
+		ctx, stages := utils.WithStageGroup(ctx)
+		defer stages.Wait()
 		defer cancel()
 		// ---------------------------
 		pointsQ := utils.ProduceWithContext(ctx, points)
@@ -244,6 +249,11 @@ func (s *Shard) UpdatePoints(points []models.Point) ([]uuid.UUID, error) {
 		// ---------------------------
 		// Kick off index dispatcher
 		ctx, cancel := context.WithCancel(context.Background())
+		// The pipeline stages below work on this transaction. If one of them
+		// fails the others must have stopped before the transaction is rolled
+		// back, so we cancel and then wait for all of them.
+		ctx, stages := utils.WithStageGroup(ctx)
+		defer stages.Wait()
 		defer cancel()
 		// ---------------------------
 		pointsQ := utils.ProduceWithContext(ctx, points)
@@ -495,6 +505,11 @@ func (s *Shard) DeletePoints(deleteSet map[uuid.UUID]struct{}) ([]uuid.UUID, err
 		// ---------------------------
 		// Kick off index dispatcher
 		ctx, cancel := context.WithCancel(context.Background())
+		// The pipeline stages below work on this transaction. If one of them
+		// fails the others must have stopped before the transaction is rolled
+		// back, so we cancel and then wait for all of them.
+		ctx, stages := utils.WithStageGroup(ctx)
+		defer stages.Wait()
 		defer cancel()
 		// ---------------------------
 		pointsQ := utils.ProduceWithContextMapKeys(ctx, deleteSet)
